@@ -4,6 +4,7 @@
 //!
 //! One process per case.  Case file (lines):
 //!   init D1,D2,...        build `registry().with(reload::Subscriber::new(EnvFilter::new("D1,D2,..."))).with(Rec)`, global default
+//!   inits D1,D2,...       the same, but the recording layer on top answers `Interest::sometimes()` for every callsite
 //!   reload D1,D2,...      handle.reload(EnvFilter::new("D1,D2,..."))
 //!   modify D              handle.modify(|f| *f = mem::take(f).add_directive(D))
 //!   newdispatch           an unrelated `Dispatch::new(registry())`, dropped at once (forces a rebuild of the interest cache)
@@ -29,6 +30,21 @@ thread_local! {
 
 struct Rec;
 impl<C: tracing_core::Collect + for<'a> tracing_subscriber::registry::LookupSpan<'a>> Subscribe<C> for Rec {
+    fn on_event(&self, e: &Event<'_>, _: Context<'_, C>) {
+        SEEN.with(|s| s.borrow_mut().push(format!("e:{}", e.metadata().name())));
+    }
+    fn on_new_span(&self, a: &span::Attributes<'_>, _: &span::Id, _: Context<'_, C>) {
+        SEEN.with(|s| s.borrow_mut().push(format!("s:{}", a.metadata().name())));
+    }
+}
+
+/// The same recording layer, but one that answers `Interest::sometimes()` for every callsite (a sampling / dynamically
+/// configured layer): the layers below it must still be told about every callsite (`inits`, seeded C12-I).
+struct RecS;
+impl<C: tracing_core::Collect + for<'a> tracing_subscriber::registry::LookupSpan<'a>> Subscribe<C> for RecS {
+    fn register_callsite(&self, _: &'static tracing_core::Metadata<'static>) -> tracing_core::Interest {
+        tracing_core::Interest::sometimes()
+    }
     fn on_event(&self, e: &Event<'_>, _: Context<'_, C>) {
         SEEN.with(|s| s.borrow_mut().push(format!("e:{}", e.metadata().name())));
     }
@@ -109,6 +125,12 @@ fn main() {
                 "init" => {
                     let (layer, h) = reload::Subscriber::new(EnvFilter::new(rest));
                     let d = tracing_core::Dispatch::new(Registry::default().with(layer).with(Rec));
+                    tracing_core::dispatch::set_global_default(d).map_err(|_| "global default already set".to_string())?;
+                    handle = Some(h);
+                }
+                "inits" => {
+                    let (layer, h) = reload::Subscriber::new(EnvFilter::new(rest));
+                    let d = tracing_core::Dispatch::new(Registry::default().with(layer).with(RecS));
                     tracing_core::dispatch::set_global_default(d).map_err(|_| "global default already set".to_string())?;
                     handle = Some(h);
                 }
